@@ -89,3 +89,27 @@ func debugGlobals(repo string) {
 		fmt.Println(k, "<-", v)
 	}
 }
+
+// debugLoops lists every loop with an early exit (break / success return inside the loop) in rulio's packages.
+func debugLoops(repo string) {
+	w := loadWorld(repo, false)
+	n, total := 0, 0
+	for _, fn := range w.Funcs {
+		if isTestFile(w, fn) || fn.Synthetic != "" {
+			continue
+		}
+		for _, l := range naturalLoops(fn) {
+			total++
+			for _, ex := range loopEarlyExits(l) {
+				n++
+				last := ex.From.Instrs[len(ex.From.Instrs)-1]
+				kind := "break"
+				if ex.Succ < 0 {
+					kind = "return"
+				}
+				fmt.Printf("%-6s %-55s %s\n", kind, fname(fn), w.PosOf(last))
+			}
+		}
+	}
+	fmt.Println("loops", total, "early exits", n)
+}
